@@ -55,6 +55,7 @@ class Execution:
         self.clock = VClock(k=opts.get("k", 50.0))
         self.backend = Backend(self.clock, input_payload=scenario.get("input", "{}"))
         self.backend.timer_lag = float((scenario.get("world") or {}).get("timer_lag", 0.0))
+        self.backend.prune_completed = bool((scenario.get("world") or {}).get("prune_completed", False))
         self.backend.lean_step_details = bool((scenario.get("world") or {}).get("lean_step_details", False))
         self.backend.skew = float((scenario.get("world") or {}).get("clock_skew", 0.0))
         self.backend.empty_page_every = int((scenario.get("pages") or {}).get("empty_every", 0))
